@@ -34,7 +34,7 @@ CSS_CFGS = [{'type': 'stylesheet'}, {'type': 'stylesheet', 'options': {'styleshe
 
 def cases(tier, seed, prop):
     rnd = random.Random(seed)
-    n = 400 if tier == 'quick' else 5000
+    n = 1200 if tier == 'quick' else 5000
     out = []
     for _ in range(n):
         css = rnd.random() < .45
